@@ -32,7 +32,7 @@ CHECKS = {
             "trusted: the transformations themselves (exact in floating point for 2^k; translation offsets exactly representable)",
             "DESIGN.md §2 C16"),
     "C19": ("[thorough: + atheris coverage-guided bridge] property-based testing (Hypothesis), differential oracle (logger at ERROR vs DEBUG, NullHandler / StreamHandler)",
-            "Single calls and histories are run at both log levels: returned states (incl. their type), index, path keys and every "
+            "Single calls and histories (general, long non-emitting, hash-colliding and dead-end detour families) are run at both log levels: returned states (incl. their type), index, path keys and every "
             "probability on the path must be identical. Exploration.",
             "trusted: logging level and handlers are restored after every case",
             "DESIGN.md §2 C19"),
